@@ -41,11 +41,11 @@ def mk_env(name: str, n: int):
     return get_env(name, generator_params=dict(num_loc=n))
 
 
-def mk_policy(kind: str, env_name: str):
+def mk_policy(kind: str, env_name: str, ctor: Optional[dict] = None):
     if kind == "am":
         from rl4co.models.zoo.am import AttentionModelPolicy
 
-        return AttentionModelPolicy(env_name=env_name, **SMALL)
+        return AttentionModelPolicy(env_name=env_name, **SMALL, **(ctor or {}))
     if kind == "ham":
         from rl4co.models.zoo.ham import HeterogeneousAttentionModelPolicy
 
@@ -81,21 +81,67 @@ def mk_policy(kind: str, env_name: str):
 CORE = [("am", e) for e in ("tsp", "cvrp", "op", "pctsp", "pdp", "sdvrp")]
 ZOO = [("ham", "pdp"), ("matnet", "atsp"), ("polynet", "tsp"), ("symnco", "tsp"), ("l2d", "fjsp"), ("l2d", "jssp")]
 MORE = [("am", e) for e in ("cvrptw", "spctsp", "smtwtp", "mdcpdp", "mtvrp")]
+DYNAMIC_EMB = {("am", "sdvrp")}  # AM dynamic embedding is not static (env_embeddings/dynamic.py); jssp/fjsp are not constructible with AM
 NO_MULTISTART = {("l2d", "fjsp"), ("l2d", "jssp")}  # no select_start_nodes for the scheduling envs
 OWN_LOOP = [("ptrnet", "tsp"), ("mdam", "tsp"), ("mdam", "cvrp")]
 
-_CACHE: Dict[Tuple[str, str, int], tuple] = {}
+_CACHE: Dict[tuple, tuple] = {}
 
 
-def setup(ctx, kind: str, env_name: str, n: int):
-    """(env, policy) with weights drawn from the unit's PRNG; cached per (kind, env, n)."""
-    key = (kind, env_name, n)
+def setup(ctx, kind: str, env_name: str, n: int, ctor: Optional[dict] = None):
+    """(env, policy) with weights drawn from the unit's PRNG; cached per (kind, env, n, constructor options).
+    `ctor`: decoding options given at policy *construction* (temperature, tanh_clipping, mask_logits), kind 'am' only."""
+    key = (kind, env_name, n, tuple(sorted((ctor or {}).items())))
     if key not in _CACHE:
         torch.manual_seed(ctx.rng.getrandbits(31))
         env = mk_env(env_name, n)
-        pol = mk_policy(kind, env_name).eval()
+        pol = mk_policy(kind, env_name, ctor).eval() if ctor else mk_policy(kind, env_name).eval()
         _CACHE[key] = (env, pol)
     return _CACHE[key]
+
+
+def draw_opts(rng, p_default=0.3) -> dict:
+    """decoding options passed as call kwargs (class (a) of the strengthening round): non-default temperature,
+    top-k, top-p, tanh clipping on/off"""
+    if rng.random() < p_default:
+        return {}
+    o = {}
+    if rng.random() < 0.6:
+        o["temperature"] = rng.choice([0.5, 0.8, 1.5, 2.5])
+    if rng.random() < 0.3:
+        o["tanh_clipping"] = rng.choice([0, 3.0, 10.0])
+    if rng.random() < 0.3:
+        o["top_k"] = rng.choice([1, 2, 3])
+    if rng.random() < 0.3:
+        o["top_p"] = rng.choice([0.3, 0.7, 0.95])
+    return o
+
+
+def draw_ctor(rng) -> dict:
+    """decoding options given when the policy is constructed (as PPO relies on: its evaluate call passes no kwargs)"""
+    o = {"temperature": rng.choice([0.6, 1.7])}
+    if rng.random() < 0.5:
+        o["tanh_clipping"] = rng.choice([0, 4.0])
+    return o
+
+
+def expected_opts(pol, opts: dict) -> dict:
+    return {"temperature": opts.get("temperature", pol.temperature), "top_p": opts.get("top_p", 0.0), "top_k": opts.get("top_k", 0),
+            "tanh_clipping": opts.get("tanh_clipping", pol.tanh_clipping), "mask_logits": opts.get("mask_logits", pol.mask_logits)}
+
+
+def check_opts(ctx, tag: str, phase: str, tr: Trace, pol, opts: dict) -> bool:
+    """every process_logits call of the decode saw the options that were requested (policy-level or call-level)"""
+    want = expected_opts(pol, opts)
+    for t, got in enumerate(tr.pl_opts):
+        bad = {k: (want[k], got[k]) for k in want if got[k] != want[k] and not (k == "top_k" and got[k] == min(want[k], tr.lp[t].shape[-1]))}
+        if bad:
+            ctx.violation("decoding-option-not-applied:" + phase + ":" + ",".join(sorted(bad)),
+                          f"the {phase} call computes its step distributions with other decoding options than requested "
+                          "(temperature / top-k / top-p / tanh clipping / mask_logits), so its log-probs are not those of the distribution the actions "
+                          "were (or are to be) drawn from", {"case": tag, "step": t, "requested→used": {k: list(v) for k, v in bad.items()}})
+            return False
+    return True
 
 
 def fresh_td(ctx, env, B: int):
@@ -376,21 +422,40 @@ def select_best_rows(ctx, tag, B0: int, S: int, rew: List[float], idx: List[int]
     return rows
 
 
-def c11_case(ctx, kind, env_name, n, B, dt, *, store_all, return_sum, select_best=False, S=None, max_steps=None):
-    env, pol = setup(ctx, kind, env_name, n)
+def c11_case(ctx, kind, env_name, n, B, dt, *, store_all, return_sum, select_best=False, S=None, max_steps=None,
+             opts: Optional[dict] = None, ctor: Optional[dict] = None, default_starts=False):
+    """`S` with a multistart type: num_starts (None + default_starts: the environment's own number of starts);
+    `S` with plain 'sampling': num_samples (multisample).  `opts`: decoding options as call kwargs; `ctor`: at construction."""
+    opts = dict(opts or {})
+    env, pol = setup(ctx, kind, env_name, n, ctor)
     td = fresh_td(ctx, env, B)
-    tag = f"{kind}/{env_name}/n{n}/B{B}/{dt}" + (f"/S{S}" if S else "") + ("/best" if select_best else "") + ("/all" if store_all else "") + ("" if return_sum else "/steps") + (f"/max{max_steps}" if max_steps is not None else "")
-    kw = dict(decode_type=dt, return_entropy=store_all, return_sum_log_likelihood=return_sum)
+    if opts.get("mask_logits") is False:
+        opts.pop("top_k", None), opts.pop("top_p", None)
+    tag = (f"{kind}/{env_name}/n{n}/B{B}/{dt}" + (f"/S{S}" if S else "") + ("/best" if select_best else "") + ("/all" if store_all else "")
+           + ("" if return_sum else "/steps") + (f"/max{max_steps}" if max_steps is not None else "")
+           + ("/kw:" + ",".join(f"{k}={v}" for k, v in sorted(opts.items())) if opts else "")
+           + ("/ctor:" + ",".join(f"{k}={v}" for k, v in sorted(ctor.items())) if ctor else ""))
+    kw = dict(decode_type=dt, return_entropy=store_all, return_sum_log_likelihood=return_sum, **opts)
+    multisample = dt == "sampling" and S is not None
     if "multistart" in dt:
-        kw["num_starts"] = S
+        if not default_starts:
+            kw["num_starts"] = S
         kw["select_best"] = select_best
+    if multisample:
+        kw["num_samples"] = S
+        kw["select_best"] = select_best
+        ctx.count("multisample")
+    for k_ in opts:
+        ctx.count(f"opt:{k_}")
+    if ctor:
+        ctx.count("opt:at-construction")
     if max_steps is not None:
         kw["max_steps"] = max_steps
         kw["calc_reward"] = False
         td.set("reward", torch.zeros(B))
     # steps flagged as irrelevant: a td["mask"] of shape [B, L] (equal-length environments, L = n)
     inj = None
-    if env_name in ("tsp", "atsp") and not select_best and max_steps is None and ctx.rng.random() < 0.5:
+    if env_name in ("tsp", "atsp") and not select_best and max_steps is None and opts.get("mask_logits") is not False and ctx.rng.random() < 0.5:
         inj = torch.tensor([[ctx.rng.random() < 0.7 for _ in range(n)] for _ in range(B)])
         td.set("mask", inj)
         ctx.count("ll-mask-injected")
@@ -411,15 +476,17 @@ def c11_case(ctx, kind, env_name, n, B, dt, *, store_all, return_sum, select_bes
         return None
     exp_mask = None
     if inj is not None:
-        exp_mask = inj.repeat(S, 1) if "multistart" in dt else inj
+        exp_mask = inj.repeat(tr.pre["B"] // B, 1)
         got = tr.gll[0]["mask"] if tr.gll else None
         if got is None or not torch.equal(got, exp_mask):
             ctx.violation("ll-mask-not-applied", "td['mask'] (steps flagged irrelevant) does not reach get_log_likelihood",
                           {"case": tag, "expected": tl(exp_mask), "got": tl(got)})
+    check_opts(ctx, tag, "rollout", tr, pol, opts)
     line, meta = decode_request(tr, store_all=store_all, max_steps=(1_000_000 if max_steps is None else max_steps), llmask=exp_mask)
     model = ask_decode(ctx, line, meta)
     picked = None
-    if select_best and meta["multi"]:
+    S = meta["B"] // B  # replication factor actually used (num_starts / num_samples / the environment's default)
+    if select_best and S > 1:
         idx = flat_i(tr.select_best_idx[0]) if tr.select_best_idx else None
         if idx is None or not tr.rewards:
             ctx.disagreement("select_best: no arg-max / rewards recorded", {"case": tag})
@@ -447,14 +514,18 @@ def c11_case(ctx, kind, env_name, n, B, dt, *, store_all, return_sum, select_bes
     T = meta["T"]
     ctx.case((tag, tuple(map(tuple, model["acts"]))), nontrivial=T > 1)
     ctx.count("len:%d" % min(T, 12) if T < 12 else "len:12+")
-    if ctx.evaluations <= 2:
-        ctx.sample({"case": tag, "actions": model["acts"][:2], "ll_model": model["ll"][:2], "ll_code": tl(out["log_likelihood"])[:2] if return_sum else None})
-    return tr, out, model, meta, td, env, pol, tag, rng_state, (kind, env_name)
+    if meta["multi"] and sum(1 for x in ctx.samples if x.get("kind") == "multistart") < 1:
+        ctx.sample({"kind": "multistart", "case": tag, "row0_actions(first is forced)": model["acts"][0],
+                    "row0_gathered_logp_per_step(model of the recorded rows)": [round(v, 6) for v in model["vals"][0]],
+                    "row0_sum(Spec.specLL)": model["spec"][0],
+                    "row0_returned_log_likelihood": (float(out["log_likelihood"][0]) if return_sum else [round(float(v), 6) for v in out["log_likelihood"][0].tolist()])
+                    if picked is None else "best-selected rows: " + str(picked)}, cap=4)
+    return tr, out, model, meta, td, env, pol, tag, rng_state, (kind, env_name), opts
 
 
 def c11_roundtrip(ctx, res):
     """evaluate round trip of a (non multi-start) rollout: feed the returned actions back."""
-    tr, out, model, meta, td, env, pol, tag, rng_state, pair = res
+    tr, out, model, meta, td, env, pol, tag, rng_state, pair, opts = res
     tag = tag + "/evaluate"
     acts = out["actions"]
 
@@ -472,14 +543,30 @@ def c11_roundtrip(ctx, res):
     keep_chk = env.check_solution
     env.check_solution = keep_chk and not getattr(tr, "checker_off", False)
     try:
-        tr2, out2, e2 = run_policy(pol, env, td, actions=acts, return_entropy=True, return_sum_log_likelihood=False)
+        tr2, out2, e2 = run_policy(pol, env, td, actions=acts, return_entropy=True, return_sum_log_likelihood=False, **opts)
+        if e2 is not None and isinstance(e2, AssertionError) and "-inf" in str(e2) and (opts.get("top_k") or opts.get("top_p")):
+            # under top-k / top-p a returned action can only be −inf at re-evaluation if the distributions changed:
+            # does the network consume random numbers?  replay with the generator state of the rollout
+            keep = torch.get_rng_state()
+            torch.set_rng_state(rng_state)
+            tr3, out3, e3 = run_policy(pol, env, td, actions=acts, return_entropy=True, return_sum_log_likelihood=False, **opts)
+            torch.set_rng_state(keep)
+            if e3 is None and max_dev(tr, tr3) <= 1e-6:
+                ctx.violation(f"evaluate-roundtrip-stochastic-network:{pair[0]}/{pair[1]}",
+                              "the network draws fresh random numbers in every forward pass, so evaluating the returned actions does not reproduce "
+                              "the per-step log-probabilities — here a returned action even falls outside the top-k/top-p support at re-evaluation "
+                              "(the round trip is exact once the generator state of the rollout is restored)", {"case": tag, "raised": short(e2, 80)})
+                ctx.count("stochastic-network(roundtrip judged with restored generator state)")
+                tr2, out2, e2 = tr3, out3, None
         if e2 is not None:
             raise e2
+        if not check_opts(ctx, tag, "evaluate", tr2, pol, opts):
+            return
         if max_dev(tr, tr2) > 1e-6:
             # does the network consume random numbers?  replay with the generator state of the rollout
             keep = torch.get_rng_state()
             torch.set_rng_state(rng_state)
-            tr3, out3, e3 = run_policy(pol, env, td, actions=acts, return_entropy=True, return_sum_log_likelihood=False)
+            tr3, out3, e3 = run_policy(pol, env, td, actions=acts, return_entropy=True, return_sum_log_likelihood=False, **opts)
             torch.set_rng_state(keep)
             if e3 is None and max_dev(tr, tr3) <= 1e-6:
                 ctx.violation(f"evaluate-roundtrip-stochastic-network:{pair[0]}/{pair[1]}",
@@ -545,21 +632,87 @@ def c11_roundtrip(ctx, res):
                           {"case": tag, "row": r, "exponent": expo, "ratio": float(ratio[r])})
             return
     ctx.count("ratio-one")
+    if sum(1 for x in ctx.samples if x.get("kind") == "roundtrip") < 2:
+        ctx.sample({"kind": "roundtrip", "case": tag, "row0_actions": model["acts"][0],
+                    "row0_gathered_logp_per_step(rollout)": [round(v, 6) for v in model["vals"][0]],
+                    "row0_gathered_logp_per_step(evaluate)": [round(v, 6) for v in model2["vals"][0]],
+                    "row0_returned_log_likelihood": float(ll_old[0]), "row0_spec_sum": model["spec"][0],
+                    "max_abs_dev_of_recorded_distributions(rollout vs evaluate)": worst,
+                    "ppo_ratio_row0": float(ratio[0]), "reward_equal": bool(torch.equal(out["reward"], out2["reward"]))}, cap=4)
 
 
-def c11_multistart_evaluate_probe(ctx, res):
-    """Scope probe (DESIGN §8): evaluate mode does not replay a forced multi-start move.  Recorded as a note;
-    a violation only if a bundled trainer combines evaluate with multi-start (see `trainer_scope_probe`)."""
-    tr, out, model, meta, td, env, pol, tag = res[:8]
-    S = meta["B"] // td.batch_size[0]
-    td_rep = torch.cat([td.clone() for _ in range(S)], 0)
+def c11_replica_teacher_forcing(ctx, res):
+    """Independent reference for replicated rollouts (multi-start / multi-sample, class (b)): every (instance, copy)
+    row is re-scored by teacher forcing — `policy(td, env, actions=rows of one copy)` on the ORIGINAL batch of B
+    instances, one call per copy, same generator state, same decoding options.  Evaluate mode neither replicates
+    the batch nor forces a start, so encoder caches are not re-grouped there; a forced first move is scored by the
+    policy in the reference and skipped in the comparison (it counts 0 in the rollout).  A row whose log-probs were
+    computed against another instance's cache / another copy's state shows up here as `replica-logp-not-policy`."""
+    tr, out, model, meta, td, env, pol, tag, rng_state, pair, opts = res
+    B0 = td.batch_size[0]
+    S = meta["B"] // B0
+    forced = 1 if meta["multi"] else 0
+    acts_all = tr.post["stack_actions"]
+    if infeasible_forced_start(tr, td):
+        ctx.count("replica-teacher-forcing-skipped(infeasible forced start)")
+        return
+    slotted = slot_conditioned(ctx, pair[0], pair[1], pol, env, td) if pair not in NO_MULTISTART else False
+    mask_inj = td["mask"] if "mask" in td.keys() else None
+    # with top-k / top-p the forced start node may have log-prob −inf under the policy (it was never drawn from it):
+    # the reference flags step 0 as irrelevant (td["mask"]), which get_log_likelihood zeroes before its −inf assertion
+    # (also without filtering: an unclipped policy on unnormalised features can put a forced node below the −1000 assertion)
+    need_mask0 = bool(forced)
+    keep_rng = torch.get_rng_state()
+    keep_chk = env.check_solution
+    env.check_solution = False  # a single copy's rows may be padded differently; feasibility is not the point here
     try:
-        with torch.no_grad():
-            out2 = pol(td_rep, env, phase="test", actions=out["actions"], return_sum_log_likelihood=False)
-        d = (out2["log_likelihood"].sum(-1) - (out["log_likelihood"] if out["log_likelihood"].dim() == 1 else out["log_likelihood"].sum(-1))).abs().max().item()
-        ctx.count("scope:evaluate+multistart-differs" if d > 1e-6 else "scope:evaluate+multistart-equal")
-    except Exception:
-        ctx.count("scope:evaluate+multistart-raises")
+        for sl in range(S):
+            if slotted and sl > 0:
+                ctx.count("replica-teacher-forcing-skipped(slot-conditioned policy, slot>0)")
+                continue
+            rows = list(range(sl * B0, (sl + 1) * B0))
+            torch.set_rng_state(rng_state)
+            td_ref = td
+            if need_mask0:
+                td_ref = td.clone()
+                m0 = mask_inj.clone() if mask_inj is not None else torch.ones(B0, acts_all.shape[1], dtype=torch.bool)
+                m0[:, 0] = False
+                td_ref.set("mask", m0)
+            tr2, out2, e2 = run_policy(pol, env, td_ref, actions=acts_all[rows], return_sum_log_likelihood=False, **opts)
+            if e2 is not None and need_mask0 and mask_inj is None and len(tr2.steps) != acts_all.shape[1]:
+                # this copy's rows finish earlier than the replicated batch did: the flag tensor must have that width
+                m0 = torch.ones(B0, len(tr2.steps), dtype=torch.bool)
+                m0[:, 0] = False
+                td_ref.set("mask", m0)
+                torch.set_rng_state(rng_state)
+                tr2, out2, e2 = run_policy(pol, env, td_ref, actions=acts_all[rows], return_sum_log_likelihood=False, **opts)
+            if e2 is not None:
+                ctx.violation("replica-rescoring-raised:" + type(e2).__name__, f"teacher forcing of a multi-start / multi-sample row raised: {short(e2, 200)}",
+                              {"case": tag, "copy": sl})
+                return
+            check_opts(ctx, tag, "evaluate", tr2, pol, opts)
+            tf = out2["log_likelihood"]
+            T2 = tf.shape[1]
+            for j, i in enumerate(rows):
+                vals = model["vals"][i]
+                for t in range(forced, min(T2, len(vals))):
+                    if mask_inj is not None and not bool(mask_inj[j][t]):
+                        continue
+                    d = abs(float(tf[j][t]) - vals[t])
+                    if 1e-5 < d <= 3e-4:
+                        ctx.count("teacher-forcing-dev-in(1e-5,3e-4]")
+                        continue
+                    if d > 1e-5:
+                        ctx.violation("replica-logp-not-policy",
+                                      "a multi-start / multi-sample row's per-step log-prob is not what the policy assigns to that action for that "
+                                      "instance along that sequence (teacher forcing of the (instance, copy) pair on the un-replicated batch)",
+                                      {"case": tag, "instance": j, "copy": sl, "row": i, "step": t, "rollout": vals[t],
+                                       "teacher_forcing": float(tf[j][t]), "actions": model["acts"][i]})
+                        return
+            ctx.count("replica-teacher-forcing")
+    finally:
+        env.check_solution = keep_chk
+        torch.set_rng_state(keep_rng)
 
 
 def trainer_scope_probe(ctx):
@@ -692,7 +845,7 @@ def own_loop_case(ctx, kind, env_name, n, B, dt):
         ctx.count("evaluate")
 
 
-def ppo_first_ratio(ctx, normalization, batch_size, mini_batch_size, default_policy=False):
+def ppo_first_ratio(ctx, normalization, batch_size, mini_batch_size, default_policy=False, policy_extra=None):
     """Run the REAL `PPO.shared_step` (one Lightning training batch of AMPPO) and observe the probability ratio
     `torch.exp(ll.sum(-1) - old_logprobs)` of its first mini-batch, i.e. before any optimiser step."""
     from rl4co.envs import get_env
@@ -701,7 +854,7 @@ def ppo_first_ratio(ctx, normalization, batch_size, mini_batch_size, default_pol
 
     torch.manual_seed(ctx.rng.getrandbits(31))
     env = get_env("tsp", generator_params=dict(num_loc=6))
-    pk = dict(SMALL) if default_policy else dict(SMALL, normalization=normalization)
+    pk = dict(SMALL) if default_policy else dict(SMALL, normalization=normalization, **(policy_extra or {}))
     kw = {} if mini_batch_size is None else {"mini_batch_size": mini_batch_size}
     m = AMPPO(env, policy_kwargs=pk, critic_kwargs=dict(embed_dim=32, hidden_dim=32), batch_size=batch_size,
               train_data_size=batch_size, val_data_size=2, test_data_size=2, ppo_epochs=2, **kw)
@@ -743,12 +896,14 @@ def ppo_first_ratio(ctx, normalization, batch_size, mini_batch_size, default_pol
 def ppo_probe(ctx):
     """C11's PPO clause on the real trainer: the ratio of the first mini-batch of the first PPO epoch must be 1."""
     cases = [("instance", 8, 4, False, "instance-norm/minibatch<batch"),
+             ("instance+T", 8, 4, False, "instance-norm/minibatch<batch/policy temperature 1.7, tanh_clipping 4"),
              ("batch", 8, 8, False, "batch-norm/minibatch=batch"),
              (None, 8, None, True, "AMPPO-defaults(batch-norm, mini_batch_size=0.25)")]
     controls_ok = 0
     for norm, bs, mbs, dflt, name in cases:
         try:
-            st = ppo_first_ratio(ctx, norm, bs, mbs, dflt)
+            extra = {"temperature": 1.7, "tanh_clipping": 4.0} if norm == "instance+T" else None
+            st = ppo_first_ratio(ctx, "instance" if norm == "instance+T" else norm, bs, mbs, dflt, extra)
         except Exception as e:  # noqa: BLE001
             ctx.violation("ppo-step-raised:" + type(e).__name__, f"PPO.shared_step raised: {short(e, 200)}", {"case": name})
             continue
@@ -772,7 +927,7 @@ def ppo_probe(ctx):
         # through the exponent the code formed, so the exponent itself is checked to be the model's 0
         dev = float((st["ratio"] - 1.0).abs().max())
         ctx.case(("ppo", name, tuple(st["ratio"].tolist())))
-        if dev <= 1e-4 and not dflt:
+        if dev <= 1e-4 and not dflt and norm != "instance+T":
             controls_ok += 1
         if dev > 1e-4:
             # the BatchNorm/mini-batch explanation is only accepted when, in this very run, the same code gave ratio 1
@@ -792,24 +947,62 @@ def run_c11(ctx):
     pairs = CORE + ZOO + (MORE if ctx.tier == "thorough" or ctx.searching else [])
     reps = ctx.budget(1, 20)
     for kind, env_name in pairs:
+        multi_ok = (kind, env_name) not in NO_MULTISTART
         for rep in range(reps):
             for dt in DECODE_TYPES:
-                if "multistart" in dt and (kind, env_name) in NO_MULTISTART:
+                if "multistart" in dt and not multi_ok:
                     continue
                 n = rng.choice([4, 5, 6, 7])
                 B = rng.choice([1, 2, 3])
                 store_all = rng.random() < 0.5
                 return_sum = rng.random() < 0.5
+                opts = draw_opts(rng)
                 if "multistart" in dt:
+                    # B ≥ 2 distinct instances most of the time (always for dynamic-embedding environments, whose decoder
+                    # caches are re-grouped per copy): re-grouping of per-instance data only shows there
+                    B = rng.choice([2, 3]) if (kind, env_name) in DYNAMIC_EMB else rng.choice([2, 2, 3, 1])
                     S = rng.choice([2, 3])
-                    sb = rng.random() < 0.5
-                    res = c11_case(ctx, kind, env_name, n, B, dt, store_all=store_all, return_sum=return_sum, select_best=sb, S=S)
-                    if res is not None and not sb and rep == 0 and dt == "multistart_greedy":
-                        c11_multistart_evaluate_probe(ctx, res)
+                    sb = rng.random() < 0.4
+                    # num_starts=None: the environment's own number of starts (get_num_starts/select_start_nodes are only
+                    # consistent for these environments; elsewhere the start rule itself fails, which is C12's)
+                    dflt = rng.random() < 0.15 and env_name in ("tsp", "cvrp", "pctsp", "pdp", "sdvrp")
+                    res = c11_case(ctx, kind, env_name, n, B, dt, store_all=store_all, return_sum=return_sum, select_best=sb, S=S,
+                                   opts=opts, default_starts=dflt)
+                    if res is not None:
+                        c11_replica_teacher_forcing(ctx, res)
                 else:
-                    res = c11_case(ctx, kind, env_name, n, B, dt, store_all=store_all, return_sum=return_sum)
+                    res = c11_case(ctx, kind, env_name, n, B, dt, store_all=store_all, return_sum=return_sum, opts=opts)
                     if res is not None:
                         c11_roundtrip(ctx, res)
+            # multi-sample: `num_samples` copies of every instance, no forced move
+            res = c11_case(ctx, kind, env_name, rng.choice([4, 5, 6]), rng.choice([2, 3]), "sampling", store_all=rng.random() < 0.5,
+                           return_sum=rng.random() < 0.5, select_best=rng.random() < 0.4, S=rng.choice([2, 3]), opts=draw_opts(rng))
+            if res is not None:
+                c11_replica_teacher_forcing(ctx, res)
+        # options given at policy construction (PPO's evaluate call passes no kwargs and relies on them)
+        if kind == "am":
+            ctor = draw_ctor(rng)
+            res = c11_case(ctx, kind, env_name, rng.choice([4, 5, 6]), rng.choice([1, 2, 3]), rng.choice(["greedy", "sampling"]),
+                           store_all=rng.random() < 0.5, return_sum=rng.random() < 0.5, ctor=ctor, opts=draw_opts(rng, 0.6))
+            if res is not None:
+                c11_roundtrip(ctx, res)
+            if multi_ok:
+                res = c11_case(ctx, kind, env_name, rng.choice([4, 5, 6]), rng.choice([2, 3]), "multistart_sampling", store_all=False,
+                               return_sum=False, S=2, ctor=ctor)
+                if res is not None:
+                    c11_replica_teacher_forcing(ctx, res)
+        # unmasked logits (mask_logits=False): only where the environment survives infeasible actions (TSP; checker off)
+        if (kind, env_name) == ("am", "tsp"):
+            keep = None
+            env_, _ = setup(ctx, kind, env_name, 5)
+            keep, env_.check_solution = env_.check_solution, False
+            try:
+                res = c11_case(ctx, kind, env_name, 5, rng.choice([1, 2]), "sampling", store_all=rng.random() < 0.5, return_sum=False,
+                               opts={"mask_logits": False, "temperature": rng.choice([1.0, 2.0])})
+                if res is not None:
+                    c11_roundtrip(ctx, res)
+            finally:
+                env_.check_solution = keep
         # the max_steps break of the loop
         n = rng.choice([5, 6])
         c11_case(ctx, kind, env_name, n, 2, "sampling", store_all=False, return_sum=True, max_steps=rng.choice([0, 1, 2, 3]))
@@ -847,51 +1040,98 @@ def beam_request(tr: Trace, B0: int, W: int, rew: Optional[List[float]] = None, 
     return line, {"k": k, "k3": k3, "N": N, "T": T, "BW": BW}
 
 
-def c13_case(ctx, kind, env_name, n, B0, W):
+def kept_not_top_witness(tr: Trace, ms, t: int, b: int, B0: int, W: int, N: int) -> dict:
+    """Independent per-instance recomputation of one beam step from the recorded policy rows: the values of all W·N
+    expansions of instance b (float32 `logp + accumulated score of the parent`, scores re-accumulated along the
+    recorded parents) against the kept columns."""
+    prev = torch.tensor(ms[t - 1], dtype=torch.float32) if t > 0 else torch.zeros(B0 * W)
+    lp = tr.lp[t]
+    val = torch.cat([lp[w * B0 + b] + prev[w * B0 + b] for w in range(W)])
+    st = tr.beam[t]
+    ind = (st["parent"].to(torch.int64) * N + st["selected"]).tolist()
+    keptc = [ind[r * B0 + b] for r in range(W)]
+    rest = [(float(val[q]), q) for q in range(W * N) if q not in keptc]
+    best_rest = max(rest) if rest else None
+    return {"step": t + 1, "instance": b, "kept (parent, action, value)": [(q // N, q % N, float(val[q])) for q in keptc],
+            "best expansion NOT kept (parent, action, value)": None if best_rest is None else (best_rest[1] // N, best_rest[1] % N, best_rest[0])}
+
+
+def c13_case(ctx, kind, env_name, n, B0, W, opts: Optional[dict] = None):
+    opts = dict(opts or {})
     env, pol = setup(ctx, kind, env_name, n)
     td = fresh_td(ctx, env, B0)
-    tag = f"{kind}/{env_name}/n{n}/B{B0}/W{W}"
+    if (opts.get("top_k") or opts.get("top_p")) and slot_conditioned(ctx, kind, env_name, pol, env, td):
+        # evaluate mode scores with strategy 0 only: an action kept under another strategy can be outside its top-k/top-p support,
+        # which makes the reference raise instead of showing the (known) slot-conditioning deviation
+        opts.pop("top_k", None), opts.pop("top_p", None)
+    tag = f"{kind}/{env_name}/n{n}/B{B0}/W{W}" + ("/kw:" + ",".join(f"{k}={v}" for k, v in sorted(opts.items())) if opts else "")
     ctx.count(f"policy:{kind}/{env_name}")
     ctx.count(f"width:{W}")
+    ctx.count(f"batch:{B0}")
+    for k_ in opts:
+        ctx.count(f"opt:{k_}")
     rng_state = torch.get_rng_state()
     tr, out, err = run_policy_guarded(ctx, pol, env, td, tag, "beam", decode_type="beam_search", beam_width=W,
-                                      select_best=False, return_sum_log_likelihood=False)
+                                      select_best=False, return_sum_log_likelihood=False, **opts)
     checker_off = getattr(tr, "checker_off", False)
     bad_start = infeasible_forced_start(tr, td)
     if err is not None:
         ctx.violation("beam-raised:" + type(err).__name__, f"beam search raised {type(err).__name__}: {short(err, 200)}", {"case": tag})
         return
+    check_opts(ctx, tag, "rollout", tr, pol, opts)
     line, meta = beam_request(tr, B0, W)
     rep = parse_fields(ctx.driver.ask(line))
     if "seq" not in rep:
         raise RuntimeError("driver: " + str(rep)[:300])
     k, N, T, BW = meta["k"], meta["N"], meta["T"], meta["BW"]
     wit = {"case": tag}
+    pend = []  # model≠code on internals; reported after the property itself has been judged on the real outcome
+
+    def flush():
+        for what, det in pend:
+            ctx.disagreement(what, det)
+
     # per-step index arithmetic and scores (bit-exact)
     for name, key in (("selected", "sel"), ("parent", "par"), ("bbi", "bbi")):
         m = parse_rows(rep[key], int)
         c = [flat_i(st[name]) for st in tr.beam]
         if m != c:
-            ctx.disagreement(f"beam: {name} per step", {**wit, "model": short(m), "code": short(c)})
-            return
+            pend.append((f"beam: {name} per step", {**wit, "model": short(m), "code": short(c)}))
     ms = parse_rows(rep["score"], lambda x: dec_lp(x, k))
     cs = [flat(st["score_after"]) for st in tr.beam]
     if ms != cs:
-        ctx.disagreement("beam: accumulated scores (parent_beam_logprobs)", {**wit, "model": short(ms), "code": short(cs)})
-        return
-    if "0" in rep["validtop"]:
-        ctx.violation("beam-kept-not-top", "the kept expansions are not a top-W set of the stacked beam scores",
-                      {**wit, "validtop": rep["validtop"]})
-        return
-    # back-tracked sequences and their per-step log-probs
+        pend.append(("beam: accumulated scores (parent_beam_logprobs)", {**wit, "model": short(ms), "code": short(cs)}))
+    # (1) kept beams are the top-W expansions — judged with scores re-accumulated independently from the recorded policy rows
+    groups = rep["validtop"].split(",") if rep["validtop"] else []
+    for t, g in enumerate(groups):
+        for b, bit in enumerate(g):
+            if bit == "0":
+                ctx.violation("beam-kept-not-top", "at a decoding step the kept beams of an instance are not the W highest-scoring expansions of its previous beams "
+                              "(scores = log-probs accumulated along each beam's own parent chain, recomputed from the recorded policy rows)",
+                              {**wit, **kept_not_top_witness(tr, ms, t, b, B0, W, N)})
+                flush()
+                return
+    # (2) reconstruction through the beam parents
     seq = parse_rows(rep["seq"], int)
-    if seq != tl(out["actions"]):
-        ctx.disagreement("beam: back-tracked sequences", {**wit, "model": short(seq), "code": short(tl(out["actions"]))})
+    cseq = tl(out["actions"])
+    if seq != cseq:
+        i = next(i for i in range(len(cseq)) if i >= len(seq) or seq[i] != cseq[i])
+        ctx.violation("beam-backtrack-inconsistent", "the sequence returned for a beam is not the chain of actions along its recorded parents",
+                      {**wit, "row": i, "returned": cseq[i], "along_parents": seq[i] if i < len(seq) else None})
+        flush()
         return
+    # (3) returned per-step log-probs are the recorded policy rows gathered along that chain (Lean Spec on the real outcome)
     vals = parse_rows(rep["vals"], lambda x: dec_lp(x, k))
     cv = [[float(v) for v in row] for row in out["log_likelihood"].tolist()]
     if vals != cv:
-        ctx.disagreement("beam: per-step log-probs of the back-tracked sequences", {**wit, "model": short(vals), "code": short(cv)})
+        i = next(i for i in range(len(cv)) if vals[i] != cv[i])
+        ctx.violation("beam-logp-not-policy-rows", "the per-step log-probs returned for a beam are not the entries of the policy's step distributions "
+                      "(recorded process_logits outputs) for the beam's actions along its parent chain",
+                      {**wit, "row": i, "sequence": cseq[i], "returned": cv[i], "policy_rows_gathered": vals[i]})
+        flush()
+        return
+    flush()
+    if pend:
         return
     # ---- the property on the real outcome -------------------------------------------------------------
     start = flat_i(tr.pre["start"])
@@ -918,7 +1158,7 @@ def c13_case(ctx, kind, env_name, n, B0, W):
     # one call per beam slot so that the encoder sees exactly the batch it saw during the search)
     worst = 0.0
     keep_chk = env.check_solution
-    env.check_solution = keep_chk and not checker_off
+    env.check_solution = False  # one slot's rows may be trimmed differently from the search batch; feasibility is judged on the search outcome
     keep_rng = torch.get_rng_state()
     try:
         if bad_start:
@@ -926,7 +1166,20 @@ def c13_case(ctx, kind, env_name, n, B0, W):
         for w in ([] if bad_start else range(W)):
             torch.set_rng_state(rng_state)
             rows = list(range(w * B0, (w + 1) * B0))
-            tr2, out2, e2 = run_policy(pol, env, td, actions=out["actions"][rows], return_sum_log_likelihood=False)
+            td_ref = td
+            if True:
+                # the forced start may have log-prob −inf under the policy (filtered out / saturated): flag step 0 as irrelevant in the reference
+                td_ref = td.clone()
+                m0 = torch.ones(B0, T + 1, dtype=torch.bool)
+                m0[:, 0] = False
+                td_ref.set("mask", m0)
+            tr2, out2, e2 = run_policy(pol, env, td_ref, actions=out["actions"][rows], return_sum_log_likelihood=False, **opts)
+            if e2 is not None and td_ref is not td and len(tr2.steps) != T + 1:
+                m0 = torch.ones(B0, len(tr2.steps), dtype=torch.bool)
+                m0[:, 0] = False
+                td_ref.set("mask", m0)
+                torch.set_rng_state(rng_state)
+                tr2, out2, e2 = run_policy(pol, env, td_ref, actions=out["actions"][rows], return_sum_log_likelihood=False, **opts)
             if e2 is not None:
                 ctx.violation("beam-rescoring-raised:" + type(e2).__name__, f"teacher forcing of a returned beam raised: {short(e2, 200)}", wit)
                 return
@@ -974,7 +1227,7 @@ def c13_case(ctx, kind, env_name, n, B0, W):
     env.check_solution = keep_chk and not checker_off
     try:
         tr3, out3, e3 = run_policy(pol, env, td, decode_type="beam_search", beam_width=W, select_best=True,
-                                   return_sum_log_likelihood=False)
+                                   return_sum_log_likelihood=False, **opts)
     finally:
         env.check_solution = keep_chk
         torch.set_rng_state(keep_rng)
@@ -1013,8 +1266,9 @@ def c13_case(ctx, kind, env_name, n, B0, W):
         ctx.count("select_best")
     ctx.case((tag, tuple(map(tuple, seq))), nontrivial=T > 1)
     ctx.count("len:%d" % min(T + 1, 12))
-    if ctx.evaluations <= 2:
-        ctx.sample({"case": tag, "beams": seq[:W * B0][:4], "scores": ms[-1][:4] if ms else None})
+    ctx.sample({"case": tag, "beams(first W·B rows, max 4)": seq[:4], "per_step_logp_row0": [round(v, 6) for v in vals[0]],
+                "final_scores": [round(v, 6) for v in (ms[-1][:4] if ms else [])], "max_teacher_forcing_dev": worst,
+                "rewards": [round(v, 5) for v in rew[:4]]}, cap=3)
 
 
 def run_c13(ctx):
@@ -1037,7 +1291,7 @@ def run_c13(ctx):
                 widths = sorted(set([2, n] + [rng.choice(widths)]))
             for W in widths:
                 for _ in range(ctx.budget(1, 3)):
-                    c13_case(ctx, kind, env_name, n, rng.choice([1, 2, 3]), W)
+                    c13_case(ctx, kind, env_name, n, rng.choice([2, 3, 2, 1]), W, opts=draw_opts(rng, 0.45))
 
 
 # ------------------------------------------------------------------------------------------------------
@@ -1046,6 +1300,11 @@ ORACLE_NOTE = ("the policy network and process_logits are an oracle π (uninterp
                "the theorems hold for every π, the correspondence replays the real network's recorded per-step log-prob matrices")
 GLUE_NOTE = ("float32 summation order of logprobs.sum(1) and exp in calculate_entropy are outside the model (exact integer sums; "
              "sums compared within len·2^-22 relative); float32 addition of beam scores IS modelled (round-to-nearest-even) and compared bit-exactly")
+COVER_NOTE = ("decoding options are swept at the quick tier as call kwargs AND at policy construction (temperature ≠ 1, top_k, top_p, tanh clipping on/off, "
+              "mask_logits=False on TSP), in the rollout and in the evaluate round trip, and every process_logits call is checked to have received them; "
+              "multi-start (given / environment-default num_starts) and multi-sample (num_samples) rollouts with B ≥ 2 distinct instances (always on "
+              "dynamic-embedding environments, i.e. SDVRP) are judged against per-(instance, copy) teacher forcing on the un-replicated batch; these inputs "
+              "lie inside the Lean model (the options only change the oracle rows π)")
 DET_NOTE = "hypotheses `Deterministic π` / row-wise evaluation of the network are checked on the recorded traces only (1e-6)"
 SCOPE_NOTE = ("evaluate mode does not replay a forced multi-start move (decode type `evaluate` is never multi-start): the round trip is stated "
               "for non-multi-start rollouts; a probe checks on every run that no bundled trainer evaluates multi-start actions")
@@ -1100,7 +1359,11 @@ C13_THEOREMS = [
 
 register(Unit("C11", "loglik", run_c11, drivers=["drv_loglik"],
               lean_modules=["Rl4co.Props.C11.Loglik", "Rl4co.Props.C11.LoglikLoop"], theorems=C11_THEOREMS,
-              assumptions=[ORACLE_NOTE, GLUE_NOTE, DET_NOTE, SCOPE_NOTE]))
+              assumptions=[ORACLE_NOTE, GLUE_NOTE, DET_NOTE, SCOPE_NOTE, COVER_NOTE]))
 register(Unit("C13", "loglik", run_c13, drivers=["drv_loglik"], lean_modules=["Rl4co.Props.C13.Loglik", "Rl4co.Props.C13.LoglikFindings"], theorems=C13_THEOREMS,
-              assumptions=[ORACLE_NOTE, GLUE_NOTE, DET_NOTE, "torch.topk / max tie-breaking is an observed oracle input, constrained to be valid",
+              assumptions=[ORACLE_NOTE, GLUE_NOTE, DET_NOTE, COVER_NOTE,
+                           "the property is judged on the real outcome before internals are compared: kept sets against scores re-accumulated independently "
+                           "from the recorded policy rows (Lean validTop, per step and instance), returned sequences against the recorded parent chain, returned "
+                           "per-step log-probs against the recorded policy rows gathered along it and against teacher forcing",
+                           "torch.topk / max tie-breaking is an observed oracle input, constrained to be valid",
                            "feasibility of beams is C01's (every kept action is mask-admitted: proved here; the environment's own checker runs in get_reward)"]))
